@@ -70,7 +70,7 @@ mod verif_c07 {
     fn readers(e: &CacheEntry) -> usize { e.inner().inner.dynamic.as_ref().unwrap().lock.verif_readers() }
 
     // (a) every kind of guard holds the read lock for exactly its own lifetime
-    // @h name=c07_guard_pins_lock tier=quick props=C07
+    // @h name=c07_guard_pins_lock tier=quick props=C07,C13
     #[kani::proof]
     #[kani::unwind(4)]
     fn c07_guard_pins_lock() {
